@@ -39,6 +39,7 @@ type Outcome struct {
 	Stack   string
 	Forced  int
 	Decided int
+	Choices int // forked n-ary choices (nondeterministic lengths, menu picks, read schedules)
 }
 
 type abortPath struct {
@@ -96,6 +97,7 @@ type Machine struct {
 	pools     map[*Value][]Value // sync.Pool model: pool address -> put objects
 	forced    int
 	decided   int
+	choices   int
 	natives   map[string]interface{}
 	atoms     map[*Term]bool // atoms already decided on this path
 	mapReverse bool          // range over maps in reverse insertion order
@@ -499,6 +501,7 @@ func (m *Machine) Choose(n int) int {
 	if n == 1 {
 		return 0
 	}
+	m.choices++
 	if m.pos < len(m.tape) {
 		d := m.tape[m.pos]
 		m.pos++
@@ -723,7 +726,7 @@ func (m *Machine) RunPath(fn *ssa.Function, item WorkItem) (out Outcome, sibling
 	m.rmemo = map[*Term]ival{}
 	m.mapReverse = false
 	m.mapFlips = 0
-	m.forced, m.decided = 0, 0
+	m.forced, m.decided, m.choices = 0, 0, 0
 	mark := len(m.trail)
 	m.S.Push()
 	out.Kind = "ok"
@@ -774,7 +777,7 @@ func (m *Machine) RunPath(fn *ssa.Function, item WorkItem) (out Outcome, sibling
 	out.Covers = m.coverList
 	out.Known = m.known
 	out.Steps = m.steps
-	out.Forced, out.Decided = m.forced, m.decided
+	out.Forced, out.Decided, out.Choices = m.forced, m.decided, m.choices
 	m.Stats.Paths++
 	m.Stats.Steps += m.steps
 	m.Stats.InterpTime += time.Since(t0) - (m.Stats.SolverTime - solver0)
